@@ -1,6 +1,10 @@
 package props
 
 import (
+	"go/token"
+
+	"strings"
+
 	"mrocheck/an"
 
 	"golang.org/x/tools/go/ssa"
@@ -23,6 +27,7 @@ func ruleV9(c *an.Ctx) {
 	if root == nil {
 		return
 	}
+	root = delegateOf(root)
 	// the family: functions of the package reachable from jsonPath (depth 3) that can call back into it
 	// (the method of the same name, and helpers a loop was extracted into)
 	reach := map[*ssa.Function]int{root: 0}
@@ -168,4 +173,65 @@ func ruleV7c(c *an.Ctx) {
 		}
 	}
 	c.Floor("V7", "anyOverlap calls", n, 1)
+}
+
+// V10: a value declared as a typed map is projected through its values even when one of its keys
+// is spelled like the member being projected.  Without type information the object arm of the
+// projection takes an object that HAS the next path component as a key for a struct; with
+// `out map<S> m` and run-time keys {"f","g"} the argument `m.f` then resolved to m["f"] alone, the
+// files under "g" had no consumer on record and strict VDR removed them before the reader of
+// PRODUCE.m.f started (genuine defect of round 9, a consequence of the repair made for V9).
+// Necessary condition: where the projection family has a type parameter, the struct-style lookup
+// (the call of the method form on the decoded object) is dominated by the failed assertion of
+// that type to *TypedMapType.
+func ruleV10(c *an.Ctx) {
+	root := c.P.Func(pkgCore, "jsonPath")
+	if root == nil {
+		c.Info("V10", "anchor(jsonPath)", 0, "not found: not decided")
+		return
+	}
+	fn := delegateOf(root)
+	hasType := false
+	for _, prm := range fn.Params {
+		if nm, _ := derefNamed(prm.Type()); nm == "Type" {
+			hasType = true
+		}
+	}
+	if !hasType {
+		c.Fail("V10", "declared-typed-map-is-projected-through-its-values@jsonPath", fn.Pos(),
+			"the projection used for the keep-alive bookkeeping has no access to the declared type of the outputs: an object that has the projected member's name among its keys is taken for a struct, so for `out map<S> m` with a key named like a member of S only that entry's files are kept alive")
+		return
+	}
+	n := 0
+	an.Instrs(fn, func(in ssa.Instruction) {
+		cl, ok := in.(*ssa.Call)
+		if !ok {
+			return
+		}
+		h := cl.Call.StaticCallee()
+		if h == nil || h.Signature.Recv() == nil || !strings.Contains(h.Signature.Recv().Type().String(), "LazyArgumentMap") || !strings.Contains(strings.ToLower(h.Name()), "jsonpath") {
+			return
+		}
+		n++
+		g, _ := an.GuardedBy(cl, func(r an.Rel) bool {
+			if r.Op != token.ILLEGAL || r.Truth {
+				return false
+			}
+			ex, ok := r.X.(*ssa.Extract)
+			if !ok || ex.Index != 1 {
+				return false
+			}
+			ta, ok := ex.Tuple.(*ssa.TypeAssert)
+			if !ok {
+				return false
+			}
+			nm, _ := derefNamed(ta.AssertedType)
+			return nm == "TypedMapType"
+		})
+		c.Check("V10", "declared-typed-map-is-projected-through-its-values@"+an.FnName(fn), cl.Pos(), g,
+			"the struct-style lookup of the next path component is made although the declared type may be a typed map: with `out map<S> m` and a run-time key named like a member of S, `m.f` resolves to that one entry, the other entries' files lose their consumer and are removed before it starts")
+	})
+	if n == 0 {
+		c.Info("V10", "anchor(struct-style lookup in the projection)", 0, "not found: not decided")
+	}
 }
